@@ -16,7 +16,7 @@ class Gen:
     def __init__(self, seed, profile=None):
         self.r = random.Random(seed)
         self.profile = profile or {}
-        self.allow_known = self.profile.get("allow_known", False)
+        self.allow_known = self.profile.get("allow_known", True)
         self.ids = 0            # number of points carrying the unique tag id / field n (selective queries)
 
     # ---- points ----
@@ -186,9 +186,11 @@ class Gen:
     # ---- operations ----
     def read_op(self):
         r = self.r
-        k = r.choice(["search", "search", "count", "count", "contains", "get", "select", "all", "len",
-                      "get_measurements", "get_tag_keys", "get_tag_values", "get_field_keys", "get_field_values",
-                      "get_timestamps"])
+        qreads = ["search", "search", "count", "count", "contains", "get", "select"]
+        getters = ["all", "len", "get_measurements", "get_tag_keys", "get_tag_values", "get_field_keys", "get_field_values",
+                   "get_timestamps"]
+        bias = self.profile.get("getter_bias")
+        k = r.choice(qreads + getters) if bias is None else r.choice(getters if r.random() < bias else qreads)
         if k == "search":
             return ("search", self.query(), self.mfilter(), r.random() < 0.5)
         if k in ("count", "contains", "get"):
@@ -299,11 +301,13 @@ class Gen:
             if c < self.profile.get("p_write", 0.45):
                 ops.append(self.write_op(csv, allow_raise))
                 ops += [("index_valid",), ("iter",)]
-            elif c < 0.9:
+            elif c < self.profile.get("p_plain", 0.9):
                 ops.append(self.read_op())
                 if r.random() < 0.3:
                     ops.append(("index_valid",))
             else:
-                ops.append(self.handle_op(False))
+                ops.append(self.handle_op(self.profile.get("handle_writes", False)))
+                if self.profile.get("handle_writes"):
+                    ops += [("index_valid",), ("iter",)]
         ops += [("all", False), ("len",), ("index_valid",)]
         return ops
